@@ -139,7 +139,7 @@ func c20Generate(seed int64, idx int) c20Case {
 		name, qual, file string // qual: name as it appears in the error text
 		method           bool
 		inLib            bool
-		rec              int // recursion depth before calling the next one
+		rec              int  // recursion depth before calling the next one
 		spread           bool // takes a variadic tail and is called with a spread slice
 	}
 	chain := make([]fn, depth)
